@@ -717,6 +717,82 @@ func lessForm(v ssa.Value) (a, b ssa.Value, neg, ok bool) {
 	return nil, nil, false, false
 }
 
+// bytesLess normalises a test of a bytes.Compare result (`bytes.Compare(a, b) <op> K`, any spelling) to
+// "x < y" (xor neg) over the compared byte strings. ok=false when v is not such a test.
+func bytesLess(v ssa.Value) (x, y ssa.Value, neg, ok bool, call *ssa.Call) {
+	v = core.Strip(v)
+	if u, isU := v.(*ssa.UnOp); isU && u.Op == token.NOT {
+		x, y, neg, ok, call = bytesLess(u.X)
+		return x, y, !neg, ok, call
+	}
+	bo, isB := v.(*ssa.BinOp)
+	if !isB {
+		return nil, nil, false, false, nil
+	}
+	asCmp := func(w ssa.Value) *ssa.Call {
+		cl, _ := core.Strip(w).(*ssa.Call)
+		if cl != nil && cl.Call.StaticCallee() != nil && cl.Call.StaticCallee().String() == "bytes.Compare" {
+			return cl
+		}
+		return nil
+	}
+	asK := func(w ssa.Value) (int64, bool) {
+		cst, okc := core.Strip(w).(*ssa.Const)
+		if !okc || cst.Value == nil || cst.Value.Kind() != constant.Int {
+			return 0, false
+		}
+		return constant.Int64Val(cst.Value)
+	}
+	if bo.Op == token.EQL || bo.Op == token.NEQ {
+		cl, k, okk := asCmp(bo.X), int64(0), false
+		if cl != nil {
+			k, okk = asK(bo.Y)
+		} else if cl = asCmp(bo.Y); cl != nil {
+			k, okk = asK(bo.X)
+		}
+		if cl == nil || !okk || (k != -1 && k != 1) {
+			return nil, nil, false, false, nil
+		}
+		a, b := cl.Call.Args[0], cl.Call.Args[1]
+		if k == 1 {
+			a, b = b, a
+		}
+		return a, b, bo.Op == token.NEQ, true, cl
+	}
+	p, q, ng, isOrd := lessForm(bo) // (p < q) xor ng
+	if !isOrd {
+		return nil, nil, false, false, nil
+	}
+	if cl := asCmp(p); cl != nil {
+		k, okk := asK(q)
+		if !okk {
+			return nil, nil, false, false, nil
+		}
+		a, b := cl.Call.Args[0], cl.Call.Args[1]
+		switch k { // cmp < k
+		case 0:
+			return a, b, ng, true, cl // a < b
+		case 1:
+			return b, a, !ng, true, cl // cmp <= 0: !(b < a)
+		}
+		return nil, nil, false, false, nil
+	}
+	if cl := asCmp(q); cl != nil {
+		k, okk := asK(p)
+		if !okk {
+			return nil, nil, false, false, nil
+		}
+		a, b := cl.Call.Args[0], cl.Call.Args[1]
+		switch k { // k < cmp
+		case 0:
+			return b, a, ng, true, cl // b < a
+		case -1:
+			return a, b, !ng, true, cl // cmp >= 0: !(a < b)
+		}
+	}
+	return nil, nil, false, false, nil
+}
+
 // ownerOf: the function a piece of code logically belongs to for who-may-write rules: closures
 // belong to their parent; an unexported function/method all of whose static call sites lie in one
 // function (after the same reduction) belongs to that caller (a block extracted into a private
